@@ -292,6 +292,15 @@ func (s *kitGRPCServer) PrintKV(ctx context.Context, r *grpctest.PrintKVRequest)
 	if iv, ok := r.Value.(*grpctest.PrintKVRequest_ValueInt); ok {
 		v = int(iv.ValueInt)
 	}
+	if r.Key == "listen" {
+		// v brokered listeners of the plugin's own, left open and unserved
+		for i := 0; i < v; i++ {
+			if _, err := s.broker.Accept(s.broker.NextId()); err != nil {
+				return nil, err
+			}
+		}
+		return &grpctest.PrintKVResponse{}, nil
+	}
 	return &grpctest.PrintKVResponse{}, s.impl.Cmd(r.Key, v)
 }
 
@@ -444,6 +453,16 @@ func (k *kitGRPCClient) AcceptOnce() error {
 		ln.Close()
 	}
 	return err
+}
+
+// Listeners: n brokered listeners on the host side and n on the plugin side, all left open and unserved.
+func (k *kitGRPCClient) Listeners(n int) error {
+	for i := 0; i < n; i++ {
+		if _, err := k.broker.Accept(k.broker.NextId()); err != nil {
+			return err
+		}
+	}
+	return k.Cmd("listen", n)
 }
 
 func (k *kitGRPCClient) Callback() error {
